@@ -159,6 +159,34 @@ theorem C15_sound_all_classes (v : View) (hv : v ∈ Gen.commands.map viewOf) (h
   rw [List.all_eq_true] at ht
   exact (C15_sound v (ht v (by simp only [List.mem_filter]; exact ⟨hv, by simpa using hdir⟩)) payload a h).1
 
+
+/-- **never mis-parsed (failure response cut short)**: whenever `from_frame` returns a *partial* command, the
+    parameters it carries re-encode to exactly the leading bytes of the payload; the bytes of the parameter that
+    was cut are not turned into anything -/
+theorem C15_partial_sound (v : View) (hs : SchemaOK v = true) (hc : contigOK v.fields = true) (payload : Bytes)
+    (a : Assign) (h : fromPayload v payload = .ok (.partialCmd a)) :
+    ∃ tail, encParams v.fields a ++ tail = payload := by
+  simp only [SchemaOK, Bool.and_eq_true] at hs
+  obtain ⟨⟨hfok, _⟩, _⟩ := hs
+  exact parse_partial_sound v payload (fieldsOk_greedyPos _ hfok) hc a v.fields [] [] payload (by simp) rfl
+    (fun j hj _ => by
+      have : j = 0 := by simpa using hj
+      subst this
+      exact ⟨payload, by simp [encParams]⟩)
+    (fun _ => by simp [encParams]) h
+
+/-- every class of the regenerated table keeps the wire fields of one parameter together -/
+theorem C15_table_contig : (Gen.commands.map viewOf).all (fun v => contigOK v.fields) = true := by decide +kernel
+
+theorem C15_partial_sound_all_classes (v : View) (hv : v ∈ Gen.commands.map viewOf) (hdir : ctype v ≠ 0)
+    (payload : Bytes) (a : Assign) (h : fromPayload v payload = .ok (.partialCmd a)) :
+    ∃ tail, encParams v.fields a ++ tail = payload := by
+  have ht : ((Gen.commands.map viewOf).filter (fun v => ctype v != 0)).all SchemaOK = true := by decide +kernel
+  rw [List.all_eq_true] at ht
+  have hc := C15_table_contig
+  rw [List.all_eq_true] at hc
+  exact C15_partial_sound v (ht v (by simp only [List.mem_filter]; exact ⟨hv, by simpa using hdir⟩)) (hc v hv) payload a h
+
 /-! ## non-vacuity -/
 example : let pre : List FView := [⟨.sc (.uint 1), false, 0, []⟩, ⟨.sc (.uint 1), false, 1, []⟩, ⟨.sc (.uint 1), false, 2, []⟩]
     givenOk pre [.sc (.num 9), .sc (.num 0), .sc (.num 24)] = true ∧
